@@ -4,7 +4,7 @@ import json
 META = {
     "level": "model_checking",
     "technique": "TLA+ model of the request-response behaviour and the Swarm's command delivery model-checked for at-most-once / exactly-once-at-quiescence (+ canary: connection denied after handler creation ignored); traces of the real Behaviour with its real Handlers over scripted in-memory streams validated by TLC against the property-level outcome-counting spec",
-    "text": "TLC exhaustively checks the transcribed behaviour (3 outbound requests, 2-3 connections, 1-2 inbound requests; dial failure, connection establishment/denial/closing/closure, lost handler commands, handler outcomes) for at-most-one outcome per id, outcomes only for sent ids and exactly one outcome at quiescence, and rejects the canary that ignores a connection denied after its handler was preloaded. The real request_response::Behaviour and its real Handlers are driven by seeded random schedules: the driver plays the Swarm (dial ok/fail/denied, inbound connections, closing phase with lost NotifyHandler commands, ConnectionClosed, substream negotiation ok/timeout/unsupported/io), the remote peers (respond, EOF, reset, garbage, partial requests on real negotiated in-memory streams through a byte codec), the application (respond/drop channels), local write failures and real request timeouts (30 ms runs); at the end everything is closed. TLC validates every emitted Event: request ids unique, at most one outcome per outbound id and per inbound id, exactly one at quiescence.",
+    "text": "TLC exhaustively checks the transcribed behaviour (3 outbound requests, 2-3 connections, 1-2 inbound requests; dial failure, connection establishment/denial/closing/closure, lost handler commands, handler outcomes) for at-most-one outcome per id, outcomes only for sent ids and exactly one outcome at quiescence, and rejects the canary that ignores a connection denied after its handler was preloaded. The real request_response::Behaviour and its real Handlers are driven by all op sequences of length 3 (4 thorough) over a 15-letter alphabet and by seeded random schedules: the driver plays the Swarm (dial ok/fail/denied, inbound connections, closing phase with lost NotifyHandler commands, ConnectionClosed, substream negotiation ok/timeout/unsupported/io), the remote peers (respond, EOF, reset, garbage, partial requests on real negotiated in-memory streams through a byte codec), the application (respond/drop channels), local write failures and real request timeouts (30 ms runs); at the end everything is closed. TLC validates every emitted Event: request ids unique, at most one outcome per outbound id and per inbound id, exactly one at quiescence.",
     "note": "Behaviour + Handler + codec are real; the Swarm and the network are played by the driver (single-threaded, FIFO event delivery per connection). Outcome kinds are not constrained, only their number.",
     "design_ref": "6/C45",
 }
@@ -21,9 +21,11 @@ def run(c):
         c.drive(drv, ["outcomes", "replay", c.replay, t])
         traces = [t]
     else:
+        t0 = c.rundir / "exh.ndjson"
+        c.drive(drv, ["outcomes", "exhaustive", c.pick(3, 4), t0])
         t1 = c.rundir / "rand.ndjson"
         c.drive(drv, ["outcomes", "random", c.seed, c.pick(500, 8000), t1])
-        traces = [t1]
+        traces = [t0, t1]
     distinct = set()
     kinds = {}
     for t in traces:
@@ -47,7 +49,7 @@ def run(c):
     c.extra_cov["outcome_kinds_seen"] = kinds
     return c.finish(
         "model_checking",
-        rule="schedule = (request timeout, op sequence of length 5..40 over send/dial(ok,fail,deny)/inconn(ok,deny)/neg(ok,timeout,unsup,io)/remote(respond,eof,reset,garbage)/inb(req,partial,eof,reset)/app(respond,drop)/wfail/sleep/closing/close on 2 peers x 2 connections), seeded random with state-aware operand resolution; distinct = distinct schedules that produced at least two different outcome kinds",
+        rule="exhaustive: one send followed by every op sequence of length N over a 15-letter alphabet; random: schedule = (request timeout, op sequence of length 5..40 over send/dial(ok,fail,deny)/inconn(ok,deny)/neg(ok,timeout,unsup,io)/remote(respond,eof,reset,garbage)/inb(req,partial,eof,reset)/app(respond,drop)/wfail/sleep/closing/close on 2 peers x 2 connections), seeded random with state-aware operand resolution; distinct = distinct schedules that produced at least two different outcome kinds",
         assumptions=["the Swarm is emulated: handler events are delivered in order and never after ConnectionClosed; commands to a closing/closed connection are dropped",
                      "timeouts are real (30 ms) in one run out of eight; the trace spec does not depend on which outcome a request gets"],
     )
